@@ -3,6 +3,8 @@ import UF.Model.DnsRewriteParse
 import UF.Spec.DnsRewriteShape
 import UF.Model.HostRule
 import UF.Spec.HostLine
+import UF.Model.RequestNew
+import UF.Spec.Request
 /- Ops of work group H (see notes/AGENT_GUIDE.md). Return `none` for ops of other groups. -/
 namespace UF.Ops
 open UF
@@ -149,10 +151,65 @@ def opC18Dns (args : List W) : String :=
     | _, _, _, _ => "bad-decode"
   | _ => "bad-arity"
 
+/-! ### C17 -/
+
+def encRequest (r : Request) : String :=
+  outList ["Q", outBytes r.url, outBytes r.urlLower, outBytes r.hostname, outBytes r.domain,
+    outBytes r.sourceURL, outBytes r.sourceHostname, outBytes r.sourceDomain,
+    outList (r.sortedTags.map outBytes), toString r.reqType, toString r.dnsType, outBool r.thirdParty,
+    outBool r.isHostnameRequest, outBytes r.clientName,
+    match r.clientIP with | none => "_" | some a => encAddr a]
+
+/-- `c17.req <url> <src> <type> <psl table>`: `NewRequest` vs model vs the reference request
+    (the latter only for URLs inside the grammar of the property). -/
+def opC17Req (args : List W) : String :=
+  match args with
+  | [url, src, ty, psl] =>
+    match url.bytes?, src.bytes?, ty.nat?, decPslTable psl with
+    | some url, some src, some ty, some psl =>
+      if !(Bytes.isAscii (url.take Facts.maxURLLength) && Bytes.isAscii (src.take Facts.maxURLLength)) then "ood ood" else
+      let ext := mkExt psl [] []
+      let s := match refRequest ext url src ty with
+        | some q => tok (encRequest q)
+        | none => "-"
+      encExcept encRequest (newRequest ext url src ty) ++ " " ++ s
+    | _, _, _, _ => "bad-decode"
+  | _ => "bad-arity"
+
+/-- `c17.hostreq <hostname> <psl table>`: `NewRequestForHostname`. -/
+def opC17Hostreq (args : List W) : String :=
+  match args with
+  | [h, psl] =>
+    match h.bytes?, decPslTable psl with
+    | some h, some psl =>
+      let ext := mkExt psl [] []
+      let s := if noEmptyLabel h then
+          tok (encRequest { url := lit "http://" ++ h, urlLower := lit "http://" ++ h, hostname := h,
+                            domain := refDomain ext h, reqType := Facts.TypeDocument, isHostnameRequest := true })
+        else "-"
+      encExcept encRequest (newRequestForHostname ext h) ++ " " ++ s
+    | _, _ => "bad-decode"
+  | _ => "bad-arity"
+
+/-- `c17.etld <hostname> <psl table>`: `effectiveTLDPlusOne` alone. -/
+def opC17Etld (args : List W) : String :=
+  match args with
+  | [h, psl] =>
+    match h.bytes?, decPslTable psl with
+    | some h, some psl =>
+      let ext := mkExt psl [] []
+      let s := if noEmptyLabel h then outBytes ((refETLD1 ext h).getD []) else "-"
+      encExcept outBytes (effectiveTLDPlusOne ext h) ++ " " ++ s
+    | _, _ => "bad-decode"
+  | _ => "bad-arity"
+
 def dispatchH (op : String) (args : List W) : Option String :=
   match op with
   | "c10.dnsrw" => some (opC10Dnsrw args)
   | "c10.shape" => some (opC10Shape args)
+  | "c17.req" => some (opC17Req args)
+  | "c17.hostreq" => some (opC17Hostreq args)
+  | "c17.etld" => some (opC17Etld args)
   | "c18.hostline" => some (opC18Hostline args)
   | "c18.newrule" => some (opC18Newrule args)
   | "c18.dns" => some (opC18Dns args)
